@@ -448,4 +448,61 @@ theorem numberBuilders_options_isEmpty : ∀ (bs : Builders) (n : Nat),
       simpa [Builder.content] using this
     simp [numberBuilders, h1, numberBuilders_options_isEmpty bs]
 
+
+/-! ### `merge_into` and `compose`: which builders are left alone -/
+
+theorem mapToSelectedLoop_frame (sel : Builder → Outcome Bool) (f : Builders → Builder → Outcome Builder) :
+    ∀ (todo done r : Builders), mapToSelectedLoop sel f done todo = .ok r →
+      ∃ r', r = done ++ r' ∧ All2 (fun b b' => sel b = .ok false → b' = b) todo r'
+  | [], done, r, h => by
+    simp [mapToSelectedLoop] at h; subst h; exact ⟨[], by simp, by simp [All2]⟩
+  | b :: todo, done, r, h => by
+    simp only [mapToSelectedLoop] at h
+    cases hs : sel b with
+    | err e => simp [hs] at h
+    | panic s => simp [hs] at h
+    | ok v =>
+      cases v with
+      | false =>
+        simp only [hs] at h
+        obtain ⟨r', h1, h2⟩ := mapToSelectedLoop_frame sel f todo _ r h
+        exact ⟨b :: r', by rw [h1]; simp, ⟨fun _ => rfl, h2⟩⟩
+      | true =>
+        simp only [hs] at h
+        cases hf : f (done ++ b :: todo) b with
+        | err e => simp [hf] at h
+        | panic s => simp [hf] at h
+        | ok nb =>
+          simp only [hf] at h
+          obtain ⟨r', h1, h2⟩ := mapToSelectedLoop_frame sel f todo _ r h
+          exact ⟨nb :: r', by rw [h1]; simp, ⟨fun hc => by rw [hs] at hc; simp at hc, h2⟩⟩
+
+theorem composePartition_keep (pkg : String) (sel : BSel) (ss : Schemas) : ∀ (bs keep : Builders)
+    (groups : List (String × Builder)), composePartition pkg sel ss bs = .ok (keep, groups) →
+    keep = bs.filter (fun b => match sel.matches pkg ss b with | .ok false => true | _ => false)
+  | [], keep, groups, h => by simp [composePartition] at h; simp [h.1]
+  | b :: rest, keep, groups, h => by
+    simp only [composePartition] at h
+    cases hm : sel.matches pkg ss b with
+    | err e => simp [hm] at h
+    | panic s => simp [hm] at h
+    | ok v =>
+      simp only [hm] at h
+      cases hr : composePartition pkg sel ss rest with
+      | err e => simp [hr] at h
+      | panic s => simp [hr] at h
+      | ok kg =>
+        obtain ⟨k, g⟩ := kg
+        simp only [hr] at h
+        have ih := composePartition_keep pkg sel ss rest k g hr
+        cases v with
+        | false =>
+          simp at h
+          simp [List.filter, hm, ← h.1, ih]
+        | true =>
+          simp only [Bool.not_true, Bool.false_eq_true, if_false] at h
+          cases hl : Schemas.locate ss b.for_.selfPkg with
+          | none => simp [hl] at h; simp [List.filter, hm, ← h.1, ih]
+          | some sch => simp [hl] at h; simp [List.filter, hm, ← h.1, ih]
+
 end Cog.Builder
